@@ -986,3 +986,55 @@ Proof.
   destruct (wrap32 (tsn - st_front s) >=? Z.of_nat (length (a :: l))) eqn:E2; [discriminate|].
   intros _. unfold wrap32 in *. lia.
 Qed.
+
+(* ---------------------------------------------------------------- C02: the retransmission source after T3 *)
+
+(* T3 expiry marks every outstanding chunk (not acked, not abandoned) for retransmission *)
+Lemma t3_marks_all_outstanding s c :
+  In c (st_infl (t3_step s)) -> sc_acked c = false -> sc_aband c = false -> sc_rtx c = true.
+Proof.
+  unfold t3_step; cbn [st_infl]. intros Hin Ha Hb. apply in_map_iff in Hin. destruct Hin as [c0 [E Hin]].
+  destruct (sc_acked c0 || sc_aband c0)%bool eqn:Eo.
+  - subst c. apply orb_true_iff in Eo. destruct Eo; congruence.
+  - subst c. reflexivity.
+Qed.
+
+Lemma t3_keeps_queue s :
+  map (fun c => (sc_sid c, sc_len c, sc_acked c, sc_aband c)) (st_infl (t3_step s)) =
+  map (fun c => (sc_sid c, sc_len c, sc_acked c, sc_aband c)) (st_infl s) /\ st_nbytes (t3_step s) = st_nbytes s.
+Proof.
+  unfold t3_step; cbn [st_infl st_nbytes]. split; [|reflexivity]. rewrite map_map. apply map_ext.
+  intros c. destruct (sc_acked c || sc_aband c)%bool; reflexivity.
+Qed.
+
+(* the lowest outstanding chunk, once marked, is always selected for retransmission — whatever rwnd is
+   (zero-window probe) — as long as it fits the congestion window (which never falls below one MTU) and the
+   first-send burst gate lets it pass *)
+Lemma rtx_first_selected s gate c rest :
+  st_infl s = c :: rest -> sc_rtx c = true -> 0 <= sc_len c -> sc_len c <= st_cwnd s ->
+  gate (sc_len c) = true -> In 0 (rtx_select s gate).
+Proof.
+  intros Ei Hr Hl Hc Hg. unfold rtx_select. rewrite Ei. cbn [rtx_walk]. rewrite Hr. cbn [negb].
+  replace (0 =? 0) with true by reflexivity. cbn [andb].
+  destruct (st_rwnd s <? sc_len c) eqn:Er.
+  - rewrite Hg. cbn. left. reflexivity.
+  - assert (E : 0 + sc_len c >? min32 (st_cwnd s) (st_rwnd s) = false).
+    { unfold min32. destruct (st_cwnd s <? st_rwnd s) eqn:E2; lia. }
+    rewrite E, Hg. cbn. left. reflexivity.
+Qed.
+
+(* combined: right after a T3 expiry the chunk at cumulativeTSNAckPoint+1, if still unacknowledged and not
+   abandoned, is retransmitted *)
+Lemma t3_retransmits_lowest_outstanding s gate c rest :
+  st_infl s = c :: rest -> sc_acked c = false -> sc_aband c = false -> 0 <= sc_len c ->
+  0 < st_mtu s -> sc_len c <= st_mtu s -> st_mincwnd s <= st_cwnd s -> gate (sc_len c) = true ->
+  In 0 (rtx_select (t3_step s) gate).
+Proof.
+  intros Ei Ha Hb Hl Hm Hlm Hmin Hg.
+  set (c' := mkSC (sc_sid c) (sc_len c) false false (sc_miss c) true).
+  assert (E : st_infl (t3_step s) = c' :: map (fun c0 => if (sc_acked c0 || sc_aband c0)%bool then c0
+              else mkSC (sc_sid c0) (sc_len c0) (sc_acked c0) (sc_aband c0) (sc_miss c0) true) rest).
+  { unfold t3_step; cbn [st_infl]. rewrite Ei. cbn [map]. rewrite Ha, Hb. reflexivity. }
+  apply (rtx_first_selected (t3_step s) gate c' _ E); unfold c'; cbn [sc_rtx sc_len]; try assumption; try reflexivity.
+  pose proof (set_cwnd_ge s (st_mtu s)) as [G1 G2]. unfold t3_step; cbn [st_cwnd]. lia.
+Qed.
